@@ -36,21 +36,27 @@ func crafted() map[string]string {
 	head := `{"openapi":"3.0.3","info":{"title":"t","version":"1.0"},"paths":{"/a":{"post":{"requestBody":{"content":{"application/json":{"schema":{"$ref":"#/components/schemas/T"}}}},"responses":{"200":{"description":"ok","content":{"application/json":{"schema":{"$ref":"#/components/schemas/T"}}}}}}}},"components":{"schemas":{"T":`
 	tail := `}}}`
 	m := map[string]string{
-		"crafted/property-order":  head + `{"type":"object","required":["z","a"],"properties":{"z":{"type":"string"},"a":{"type":"integer"},"m":{"type":"boolean"},"b":{"type":"number"},"yes":{"type":"string"},"no":{"type":"string"},"null":{"type":"string"},"1":{"type":"string"},"01":{"type":"string"},"1.0":{"type":"string"},"true":{"type":"string"},"a b":{"type":"string"},"#c":{"type":"string"},"- d":{"type":"string"}}}` + tail,
-		"crafted/enum-strings":    head + `{"type":"string","enum":["1","1.0","yes","no","null","true","~","0x10","1e3","01","a: b","# c"," lead","trail ","","'q'","\"dq\"","multi\nline","tab\tsep","é","😀"]}` + tail,
-		"crafted/enum-ints":       head + `{"type":"integer","enum":[1,2,3,-1,0,1000000,9007199254740991]}` + tail,
-		"crafted/defaults":        head + `{"type":"object","properties":{"s":{"type":"string","default":"yes"},"n":{"type":"number","default":1.5},"i":{"type":"integer","default":10},"b":{"type":"boolean","default":true},"z":{"type":"string","default":"1.0"},"e":{"type":"string","default":""},"big":{"type":"integer","format":"int64","default":9007199254740993},"neg":{"type":"number","default":-0.25},"arr":{"type":"array","items":{"type":"string"},"default":["a","1","true"]}}}` + tail,
-		"crafted/numbers":         head + `{"type":"object","properties":{"a":{"type":"number","minimum":0.5,"maximum":1e3,"multipleOf":0.25},"b":{"type":"integer","minimum":-10,"maximum":10,"exclusiveMinimum":true},"c":{"type":"string","minLength":1,"maxLength":10,"pattern":"^[a-z]+: #\\d{1,3}$"},"d":{"type":"array","items":{"type":"integer"},"minItems":1,"maxItems":5,"uniqueItems":true}}}` + tail,
-		"crafted/extensions":      head + `{"type":"object","x-ogen-name":"Renamed","description":"line one\nline two: with colon # and hash\n\ttabbed","properties":{"a":{"type":"string","x-ogen-name":"FieldA","example":"yes"},"b":{"type":"integer","x-whatever":{"k":[1,"1",1.0,true,null,{"n":{}}]},"example":1}},"example":{"a":"no","b":2}}` + tail,
-		"crafted/oneof":           head + `{"oneOf":[{"type":"string"},{"type":"integer"},{"type":"object","required":["k"],"properties":{"k":{"type":"string"}}},{"type":"array","items":{"type":"number"}}]}` + tail,
-		"crafted/enum-punct":      head + `{"type":"string","enum":["5\" pipe","say \"hi\"","a\"b","it's","a'b","a:b","a#b","a: b","a #b","x,y","[x","{y","a]","b}","a*b","*star","&amp","a&b","!bang","a!b","%pct","@at","` + "`tick" + `","a|b","|bar","a>b",">gt","-dash","- dash","?q","a?","=","<<","..","1_000","0o7","+1",".5","1.",".inf",".nan","0b1","2001-01-01","12:30:45","1:20","190:20:30.15","0x1F","1e3","~x","a\\b","C:\\dir","http://x.y/z?a=b&c=d#frag","key: value","- item","? complex","a, b","[a, b]","{a: b}","# comment","a # comment","'single'","\"double\"","tab\there","é è","日本語","😀 smile","\u00a0nbsp","trailing:","::","--","---","...","Yes","NO","On","oFF","Null","TRUE","nan","Inf"]}` + tail,
-		"crafted/default-punct":   head + `{"type":"object","properties":{"a":{"type":"string","default":"5\" pipe"},"b":{"type":"string","default":"it's"},"c":{"type":"string","default":"a: b"},"d":{"type":"string","default":"x #y"},"e":{"type":"string","default":"12:30:45"},"f":{"type":"string","default":"2001-01-01"},"g":{"type":"string","default":"0x1F"},"h":{"type":"string","default":"a\\b"},"i":{"type":"string","default":"[x]"},"j":{"type":"string","default":"{y}"},"k":{"type":"string","default":"1_000"},"l":{"type":"string","default":".5"},"m":{"type":"string","default":"say \"hi\"","example":"say \"bye\""},"n":{"type":"array","items":{"type":"string"},"default":["a\"b","c'd","1:20"]},"o":{"type":"object","additionalProperties":{"type":"string"},"default":{"k\"1":"v\"1","k:2":"v: 2"}}}}` + tail,
-		"crafted/invalid-enum":    head + `{"type":"integer","enum":[1,1.0]}` + tail,
-		"crafted/invalid-type":    head + `{"type":"strin"}` + tail,
-		"crafted/invalid-default": head + `{"type":"integer","default":"yes"}` + tail,
-		"crafted/invalid-ref":     head + `{"$ref":"#/components/schemas/Nope"}` + tail,
-		"crafted/invalid-pattern": head + `{"type":"string","pattern":"(unclosed"}` + tail,
-		"crafted/invalid-minmax":  head + `{"type":"string","minLength":-1}` + tail,
+		"crafted/property-order": head + `{"type":"object","required":["z","a"],"properties":{"z":{"type":"string"},"a":{"type":"integer"},"m":{"type":"boolean"},"b":{"type":"number"},"yes":{"type":"string"},"no":{"type":"string"},"null":{"type":"string"},"1":{"type":"string"},"01":{"type":"string"},"1.0":{"type":"string"},"true":{"type":"string"},"a b":{"type":"string"},"#c":{"type":"string"},"- d":{"type":"string"}}}` + tail,
+		"crafted/enum-strings":   head + `{"type":"string","enum":["1","1.0","yes","no","null","true","~","0x10","1e3","01","a: b","# c"," lead","trail ","","'q'","\"dq\"","multi\nline","tab\tsep","é","😀"]}` + tail,
+		"crafted/enum-ints":      head + `{"type":"integer","enum":[1,2,3,-1,0,1000000,9007199254740991]}` + tail,
+		"crafted/defaults":       head + `{"type":"object","properties":{"s":{"type":"string","default":"yes"},"n":{"type":"number","default":1.5},"i":{"type":"integer","default":10},"b":{"type":"boolean","default":true},"z":{"type":"string","default":"1.0"},"e":{"type":"string","default":""},"big":{"type":"integer","format":"int64","default":9007199254740993},"neg":{"type":"number","default":-0.25},"arr":{"type":"array","items":{"type":"string"},"default":["a","1","true"]}}}` + tail,
+		"crafted/numbers":        head + `{"type":"object","properties":{"a":{"type":"number","minimum":0.5,"maximum":1e3,"multipleOf":0.25},"b":{"type":"integer","minimum":-10,"maximum":10,"exclusiveMinimum":true},"c":{"type":"string","minLength":1,"maxLength":10,"pattern":"^[a-z]+: #\\d{1,3}$"},"d":{"type":"array","items":{"type":"integer"},"minItems":1,"maxItems":5,"uniqueItems":true}}}` + tail,
+		"crafted/extensions":     head + `{"type":"object","x-ogen-name":"Renamed","description":"line one\nline two: with colon # and hash\n\ttabbed","properties":{"a":{"type":"string","x-ogen-name":"FieldA","example":"yes"},"b":{"type":"integer","x-whatever":{"k":[1,"1",1.0,true,null,{"n":{}}]},"example":1}},"example":{"a":"no","b":2}}` + tail,
+		"crafted/oneof":          head + `{"oneOf":[{"type":"string"},{"type":"integer"},{"type":"object","required":["k"],"properties":{"k":{"type":"string"}}},{"type":"array","items":{"type":"number"}}]}` + tail,
+		"crafted/enum-punct":     head + `{"type":"string","enum":["5\" pipe","say \"hi\"","a\"b","it's","a'b","a:b","a#b","a: b","a #b","x,y","[x","{y","a]","b}","a*b","*star","&amp","a&b","!bang","a!b","%pct","@at","` + "`tick" + `","a|b","|bar","a>b",">gt","-dash","- dash","?q","a?","=","<<","..","1_000","0o7","+1",".5","1.",".inf",".nan","0b1","2001-01-01","12:30:45","1:20","190:20:30.15","0x1F","1e3","~x","a\\b","C:\\dir","http://x.y/z?a=b&c=d#frag","key: value","- item","? complex","a, b","[a, b]","{a: b}","# comment","a # comment","'single'","\"double\"","tab\there","é è","日本語","😀 smile","\u00a0nbsp","trailing:","::","--","---","...","Yes","NO","On","oFF","Null","TRUE","nan","Inf"]}` + tail,
+		"crafted/default-punct":  head + `{"type":"object","properties":{"a":{"type":"string","default":"5\" pipe"},"b":{"type":"string","default":"it's"},"c":{"type":"string","default":"a: b"},"d":{"type":"string","default":"x #y"},"e":{"type":"string","default":"12:30:45"},"f":{"type":"string","default":"2001-01-01"},"g":{"type":"string","default":"0x1F"},"h":{"type":"string","default":"a\\b"},"i":{"type":"string","default":"[x]"},"j":{"type":"string","default":"{y}"},"k":{"type":"string","default":"1_000"},"l":{"type":"string","default":".5"},"m":{"type":"string","default":"say \"hi\"","example":"say \"bye\""},"n":{"type":"array","items":{"type":"string"},"default":["a\"b","c'd","1:20"]},"o":{"type":"object","additionalProperties":{"type":"string"},"default":{"k\"1":"v\"1","k:2":"v: 2"}}}}` + tail,
+		// strings that hold JSON text or several lines (written as literal block scalars by one spelling), as default,
+		// example and enum member of string schemas
+		"crafted/json-text-strings": head + `{"type":"object","properties":{"tpl":{"type":"string","default":"{\"kind\": \"greeting\", \"n\": 1}","example":"[1, 2, {\"a\": null}]"},"doc":{"type":"string","default":"line one\nline two: colon\n  indented # hash\n","example":"{\n  \"multi\": true\n}"},"e":{"type":"string","enum":["{}","[]","{\"a\":1}","first\nsecond","plain"]},"arr":{"type":"array","items":{"type":"string"},"default":["{\"x\": 1}","a\nb"]}},"example":{"tpl":"{\"k\": [1,2]}","doc":"x\ny\n\n","e":"{}"}}` + tail,
+		// one sub-object three times inside a single example / default / extension value (an anchor with two aliases in
+		// the anchors spelling), and once more outside it
+		"crafted/repeated-inside-example": head + `{"type":"object","properties":{"billing":{"type":"object","properties":{"street":{"type":"string"},"zip":{"type":"string"}}},"shipping":{"type":"object","properties":{"street":{"type":"string"},"zip":{"type":"string"}}},"invoice":{"type":"object","properties":{"street":{"type":"string"},"zip":{"type":"string"}}},"tags":{"type":"array","items":{"type":"array","items":{"type":"string"}},"default":[["a","b","c"],["a","b","c"],["a","b","c"]]}},"x-sample":{"one":{"street":"1 Main St","zip":"00100"},"two":{"street":"1 Main St","zip":"00100"}},"default":{"billing":{"street":"1 Main St","zip":"00100"},"shipping":{"street":"1 Main St","zip":"00100"},"invoice":{"street":"1 Main St","zip":"00100"}},"example":{"billing":{"street":"1 Main St","zip":"00100"},"shipping":{"street":"1 Main St","zip":"00100"},"invoice":{"street":"1 Main St","zip":"00100"}}}` + tail,
+		"crafted/invalid-enum":            head + `{"type":"integer","enum":[1,1.0]}` + tail,
+		"crafted/invalid-type":            head + `{"type":"strin"}` + tail,
+		"crafted/invalid-default":         head + `{"type":"integer","default":"yes"}` + tail,
+		"crafted/invalid-ref":             head + `{"$ref":"#/components/schemas/Nope"}` + tail,
+		"crafted/invalid-pattern":         head + `{"type":"string","pattern":"(unclosed"}` + tail,
+		"crafted/invalid-minmax":          head + `{"type":"string","minLength":-1}` + tail,
 	}
 	// repeated subtrees (anchors/aliases in one spelling, spelled out in the others): identical inline default
 	// responses with inline examples on every operation (convenient errors depend on their equality), and a deep
